@@ -204,6 +204,10 @@ fn deviation(original: &J, clause: &str, diff: &str) -> Option<&'static str> {
     if empty_ns && (clause == "meaning-changed" || clause == "reparse-failed" || clause == "header-schema-differs" || clause == "reparsed-schema-differs") && (diff.contains("fullname") || diff.contains("ref") || clause == "reparse-failed" || clause == "reparsed-schema-differs") {
         return Some("D-C10-explicit-null-namespace-not-preserved");
     }
+    let ignored_logical = any(original, &|o| o.get("logicalType").and_then(|l| l.as_str()).is_some_and(|l| l == "x-unknown" || (l == "decimal" && o.get("precision").and_then(|p| p.as_u64()) < o.get("scale").and_then(|p| p.as_u64()))));
+    if ignored_logical && (clause == "meaning-changed" || clause == "header-schema-differs") && diff.contains("attr:logicalType") {
+        return Some("D-C10-ignored-logical-type-attribute-dropped");
+    }
     if prim_attr && clause == "meaning-changed" && diff.contains("attr:x-") {
         return Some("D-C10-custom-attributes-on-primitives-dropped");
     }
